@@ -110,6 +110,40 @@ def gen_case(rng, tier):
 DT = {'f64': np.float64, 'f32': np.float32, 'obj': object}
 
 
+def coq_hdict(h, T):
+    return clist([cpair(cnat(T.idx(v)), cq(F(b))) for v, b in h.items()])
+
+
+def coq_qdict(q, T):
+    return clist([f"(({cnat(T.idx(u))}, {cnat(T.idx(v))}), {cq(F(b))})" for (u, v), b in q.items()])
+
+
+def coq_sset(ss, T):
+    rec = ss.record
+    nl = len(ss.variables)
+    rows = clist(["(SSet.mkRow %s %s %s %s [])" % (clist([cq(F(int(x))) for x in np.asarray(rec.sample[i]).reshape(nl)]),
+                                                  cq(F(rec.energy[i])), "(%d)%%Z" % int(rec.num_occurrences[i]), cnat(i))
+                  for i in range(len(rec))])
+    return "(SSet.mkSS %s %s %s 0%%nat [])" % (clist([cnat(T.idx(v)) for v in ss.variables]), ss.vartype.name, rows)
+
+
+def coq_pybqm(bqm, T):
+    """the dict back-end state (_adj in insertion order, diagonal = linear bias) as a Coq PyBqm.pybqm term"""
+    adj = clist([cpair(cnat(T.idx(u)), clist([cpair(cnat(T.idx(v)), cq(F(b))) for v, b in Nu.items()]))
+                 for u, Nu in bqm.data._adj.items()])
+    return f"(PyBqm.mkPyBqm {adj} {cq(F(bqm.data.offset))})"
+
+
+def raw_qm(bqm):
+    """the raw adjacency structure of a cyBQM as a Coq Adj.qm term"""
+    d = bqm.data
+    n = bqm.num_variables
+    lin = clist([cq(F(x)) for x in np.asarray(d._ilinear())])
+    adj = clist([clist([cpair(cnat(int(e[0])), cq(F(e[1]))) for e in np.asarray(d._ineighborhood(i))]) for i in range(n)])
+    vts = clist([bqm.vartype.name] * n)
+    return f"(Adj.mkQM {lin} {adj} {cq(F(bqm.offset))} {vts})"
+
+
 def samples_for(rng_seed, labels, domain_of):
     """a few deterministic assignments (list of [label, value])"""
     import random
@@ -159,6 +193,7 @@ def run_case(c):
         other = 'SPIN' if c["vartype"] == 'BINARY' else 'BINARY'
         off = float(F(c["offset"]))
         snap = ss.record.copy()
+        sset_before = coq_sset(ss, T)
         if c.get("future") and c["inplace"]:
             # a not-yet-resolved sample set: the conversion is captured and applied at resolution
             import concurrent.futures
@@ -177,7 +212,10 @@ def run_case(c):
             py_fail = "SampleSet.change_vartype: rows/energies/labels not as specified"
         if not c["inplace"] and not c.get("future") and (ss.vartype is not gen.VT[c["vartype"]] or ss.record.tobytes() != snap.tobytes()):
             py_fail = "SampleSet.change_vartype(inplace=False) modified the receiver"
-        return {"coq": None, "py_fail": py_fail, "features": feats, "nontrivial": len(c["rows"]) > 0 and len(labels) > 0}
+        coq = None
+        if ok:
+            coq = f"(SSConv {other} {cq(F(off))} {sset_before} {coq_sset(new, T)})"
+        return {"coq": coq, "py_fail": py_fail, "features": feats, "nontrivial": len(c["rows"]) > 0 and len(labels) > 0}
 
     if kind.startswith(('bqm', 'view', 'ising')):
         desc = c["desc"]
@@ -192,6 +230,8 @@ def run_case(c):
         samples = samples_for(1, labels, lambda l: dom(other))
         feats["dtype"] = c["dtype"]
         if kind == 'bqm_change':
+            raw_before = raw_qm(bqm) if c["dtype"] in ('f64', 'f32') else None
+            py_before = coq_pybqm(bqm, T) if c["dtype"] == 'obj' else None
             new = bqm.change_vartype(other, inplace=c["inplace"])
             after = gen.observe(new)
             if not c["inplace"] and gen.observe(bqm) != before:
@@ -200,8 +240,15 @@ def run_case(c):
             if gen.observe(back)["lin"] != before["lin"] or {(frozenset((str(u), str(v)))): b for u, v, b in gen.observe(back)["quad"]} != {frozenset((str(u), str(v))): b for u, v, b in before["quad"]} or gen.observe(back)["off"] != before["off"]:
                 py_fail = "there-and-back does not restore the coefficients exactly (dyadic data)"
             en = new.energies((np.array([[v for _, v in s] for s in samples]).reshape(len(samples), len(labels)), labels)) if labels else []
+            extra = []
+            if c["dtype"] in ('f64', 'f32') and raw_before is not None:
+                # the C++ path on the raw adjacency structure (abc.h substitute_variables)
+                extra.append(f"(AdjConv {other} {raw_before} {raw_qm(new)})")
+            if py_before is not None:
+                # the dict back-end path (pyBQM.change_vartype)
+                extra.append(f"(PyConv {'Gen_PyBQM.ToBinary' if other == 'BINARY' else 'Gen_PyBQM.ToSpin'} {py_before} {coq_pybqm(new, T)})")
             return {"coq": f"(Conv {n} {d} {vars_} {coq_obs(before, T)} {coq_obs(after, T)} {coq_samples(samples, T)})",
-                    "py_fail": py_fail, "features": feats, "nontrivial": bool(before["lin"])}
+                    "extra_coq": extra, "py_fail": py_fail, "features": feats, "nontrivial": bool(before["lin"])}
         if kind == 'bqm_to_from':
             if vt == 'SPIN':
                 Q, off = bqm.to_qubo()
@@ -215,12 +262,16 @@ def run_case(c):
                       "quad": [[enc_label(u), enc_label(v), fs(b)] for (u, v), b in J.items()], "off": fs(off)}
                 again = dimod.BQM.from_ising(h, J, off)
                 Q2, off2 = dimod.ising_to_qubo(h, J, off)
+            if vt == 'SPIN':
+                extra = [f"(QI {coq_qdict(Q, T)} {cq(F(off))} {coq_hdict(h2, T)} {coq_qdict(J2, T)} {cq(F(off2))})"]
+            else:
+                extra = [f"(IQ {coq_hdict(h, T)} {coq_qdict(J, T)} {cq(F(off))} {coq_qdict(Q2, T)} {cq(F(off2))})"]
             ob = gen.observe(again)
             if (sorted(map(str, ob["lin"])) != sorted(map(str, [x for x in o2["lin"]])) and
                     {str(l): F(b) for l, b in ob["lin"] if F(b)} != {str(l): F(b) for l, b in o2["lin"] if F(b)}):
                 py_fail = "from_ising/from_qubo does not reproduce the dict it was given"
             return {"coq": f"(Conv {n} {d} {vars_} {coq_obs(before, T)} {coq_obs(o2, T)} {coq_samples(samples, T)})",
-                    "py_fail": py_fail, "features": feats, "nontrivial": bool(before["lin"])}
+                    "extra_coq": extra, "py_fail": py_fail, "features": feats, "nontrivial": bool(before["lin"])}
         if kind == 'ising_qubo':
             lin = {dec_label(l): float(F(b)) for l, b in before["lin"]}
             quad = {(dec_label(u), dec_label(v)): float(F(b)) for u, v, b in before["quad"]}
@@ -229,14 +280,16 @@ def run_case(c):
                 Q, off2 = dimod.ising_to_qubo(lin, quad, off)
                 o2 = {"lin": [[enc_label(u), fs(b)] for (u, v), b in Q.items() if u == v],
                       "quad": [[enc_label(u), enc_label(v), fs(b)] for (u, v), b in Q.items() if u != v], "off": fs(off2)}
+                extra = [f"(IQ {coq_hdict(lin, T)} {coq_qdict(quad, T)} {cq(F(off))} {coq_qdict(Q, T)} {cq(F(off2))})"]
             else:
                 Q = {(u, u): b for u, b in lin.items()}
                 Q.update(quad)
                 h, J, off2 = dimod.qubo_to_ising(Q, off)
                 o2 = {"lin": [[enc_label(u), fs(b)] for u, b in h.items()],
                       "quad": [[enc_label(u), enc_label(v), fs(b)] for (u, v), b in J.items()], "off": fs(off2)}
+                extra = [f"(QI {coq_qdict(Q, T)} {cq(F(off))} {coq_hdict(h, T)} {coq_qdict(J, T)} {cq(F(off2))})"]
             return {"coq": f"(Conv {n} {d} {vars_} {coq_obs(before, T)} {coq_obs(o2, T)} {coq_samples(samples, T)})",
-                    "features": feats, "nontrivial": bool(before["lin"])}
+                    "extra_coq": extra, "features": feats, "nontrivial": bool(before["lin"])}
         # views
         view = bqm.binary if other == 'BINARY' else bqm.spin
         if kind == 'view_read':
